@@ -39,6 +39,7 @@ def run(prog, rep):
     rep.part(window, prog, rep)
     rep.part(sample_size, prog, rep)
     rep.part(cache, prog, rep)
+    rep.part(cache_key, prog, rep)
     rep.expect_min("C16.window", 1)
     rep.expect_min("C16.cache", 1)
     rep.explanation += (" C16.window: the upper end of the rejection sampler's abscissa window lies where the density is negligible - a search that shrinks the "
@@ -122,6 +123,31 @@ def closed(prog, rep):
                 ok = False
                 detail.append(f"component {k} of {g}({f}({a[0]}, {a[1]})) is {m!r}, not {a[k]}")
         rep.check(ok, "C16.closed", inst, gf.where(), f"{g}({f}(x)) = x on the positive quadrant", "; ".join(detail))
+    # a numerical lint on the non-monomial pair: sqrt(A + f**2) - f loses every digit once A << f**2 (small steepness): the
+    # round trip hs_tz -> s_d -> hs_tz of (1e-3, 100) came back 2e-7 relative off, 7e-6 over the scope; the quotient A / (sqrt(A + f**2) + f) does not
+    inv, _t_inv = _ret_tuple(prog, f"{VT}.s_d_to_hs_tz")
+    binv = builder(prog, inv, inline=False)
+    cancel = []
+    for st in cfg_of(inv).all_stmts():
+        for n in ast.walk(st) if isinstance(st, (ast.Assign, ast.Return)) else []:
+            if isinstance(n, ast.BinOp) and isinstance(n.op, ast.Sub):
+                t = binv.term(n, st)
+                if t[0] == "bin" and t[1] == "-" and t[2][0] == "call" and t[2][1] == G("numpy.sqrt") and len(t[2][2]) == 1:
+                    arg, r = t[2][2][0], t[3]
+                    summands = []
+                    stack = [arg]
+                    while stack:
+                        x_ = stack.pop()
+                        if x_[0] == "bin" and x_[1] == "+":
+                            stack += [x_[2], x_[3]]
+                        else:
+                            summands.append(x_)
+                    if any(algebra.same(sm, ("bin", "**", r, ("const", 2))) or algebra.same(sm, ("bin", "*", r, r)) for sm in summands):
+                        cancel.append(st)
+    rep.check(not cancel, "C16.closed", f"{VT}.s_d_to_hs_tz:stable", inv.where(cancel[0]) if cancel else inv.where(), "no sqrt(A + f**2) - f",
+              "sqrt(16 d**2 s**2 + factor**2) - factor is the difference of two nearly equal numbers for a small steepness (d s << 0.64): hs_tz_to_s_d followed by "
+              "s_d_to_hs_tz returns (0.0010000002210, 100.0000195) for (1e-3, 100), up to 7e-6 relative over the scope, where the other two pairs reach 3e-16; "
+              "write the difference as 16 d**2 s**2 / (sqrt(...) + factor)")
     # non-monomial pair: recorded as undecided, not a verdict
     rep.ok("C16.closed", f"{VT}.s_d_to_hs_tz(hs_tz_to_s_d(x)):undecided", "virocon/variable_transform.py", "square roots of sums: outside the monomial domain, not decided", nontrivial=False)
     # predefined triples
@@ -498,6 +524,41 @@ def cache(prog, rep):
                   "(fit(A), empirical_cdf, fit(C), empirical_cdf returns the same numbers)")
 
 
+def cache_key(prog, rep):
+    """The memo describes the WRAPPED model as it was when the sample was drawn.  TransformedModel.fit drops it (C16.cache), but the wrapped
+    model is an object of its own and is fitted directly in the package's own examples (model.fit(data); t = TransformedModel(model, ...) -
+    and again later): the memo must be tied to the state of self.model and be re-drawn when that changed."""
+    from vstat.guards import path_conditions as _pcs
+    sp = prog.func(f"{TM}.sample")
+    rep.analysed(sp)
+    b = builder(prog, sp, inline=False)
+    pcs = _pcs(prog, sp, b)
+    model = ("attr", SELF, "model")
+    stores = {}
+    memo_st = None
+    for st in cfg_of(sp).all_stmts():
+        if isinstance(st, ast.Assign) and isinstance(st.targets[0], ast.Attribute) and b.term(st.targets[0].value, st) == SELF:
+            stores[st.targets[0].attr] = (st, b.term(st.value, st))
+            if st.targets[0].attr == "_sample":
+                memo_st = st
+    ok = False
+    why = "the sample property does not store self._sample"
+    if memo_st is not None:
+        lits = pcs.of(memo_st)
+        disj = [d_ for l_ in lits for d_ in (l_[1] if l_[0] == "or" else (l_,))]
+        why = ("the kept sample is re-drawn only when it is missing: t.empirical_cdf(x); model.fit(new_data) on the wrapped model; t.empirical_cdf(x) still answers for the old "
+               "parameters (0.80603 where cdf and a fresh sample give 0.686); keep what the sample was drawn for (e.g. repr(self.model)) and compare")
+        for d_ in disj:
+            c = d_[1] if d_[0] == "not" else d_
+            if c[0] == "cmp" and c[1] in ("==", "!=") and (d_[0] == "not") == (c[1] == "=="):
+                for key, state in ((c[2], c[3]), (c[3], c[2])):
+                    if key[0] == "attr" and key[1] == SELF and mentions(state, model) and key[2] in stores and stores[key[2]][1] == state \
+                            and set(pcs.of(stores[key[2]][0])) == set(lits):
+                        ok = True
+    rep.check(ok, "C16.cache", f"{TM}.sample:follows-the-model", sp.where(memo_st) if memo_st is not None else sp.where(),
+              "the memo is re-drawn when the state of the wrapped model differs from the one it was drawn for", why)
+
+
 def rejection(prog, rep):
     """MultivariateModel.conditional_sample is a rejection sampler: candidates uniform on [lo, hi] x [0, f_max], accepted where
     y < pdf(x).  The accepted x follow the conditional density only if f_max bounds the density on the SAME [lo, hi] the
@@ -608,7 +669,9 @@ def montecarlo(prog, rep):
     for st in cfg_of(sp).all_stmts():
         if isinstance(st, ast.Assign) and isinstance(st.targets[0], ast.Attribute) and st.targets[0].attr == "_sample":
             v = bs_.term(st.value, st)
-            oks = v[0] == "call" and v[1] == ("attr", SELF, "draw_sample") and ("isnone", ("attr", SELF, "_sample")) in path_conditions(prog, sp, bs_).of(st)
+            lits_ = path_conditions(prog, sp, bs_).of(st)
+            disj = [d_ for l_ in lits_ for d_ in (l_[1] if l_[0] == "or" else (l_,))]
+            oks = v[0] == "call" and v[1] == ("attr", SELF, "draw_sample") and ("isnone", ("attr", SELF, "_sample")) in disj
     rep.check(oks, "C16.mc", f"{TM}.sample:own-sample", sp.where(), "the cached sample is drawn from the model itself", "the empirical cdf must be computed from samples of this model (self.draw_sample)")
     # Monte-Carlo conditional cdf / icdf
     for name, red in (("conditional_cdf", "cdf"), ("conditional_icdf", "icdf")):
@@ -628,11 +691,20 @@ def montecarlo(prog, rep):
                 idx = b.term(st.targets[0].slice, st)
                 base = b.term(st.targets[0].value, st)
                 v = b.term(st.value, st)
-                smp = [s for s in walk(v) if s[0] == "call" and s[1] == ("attr", SELF, "conditional_sample")]
+                smp = sorted({s for s in walk(v) if s[0] == "call" and s[1] == ("attr", SELF, "conditional_sample")}, key=repr)   # one sample, possibly used twice
                 okc = len(smp) == 1 and smp[0][2][1:3] == (P("dim"), giv) and dict(smp[0][3]).get("random_state") == P("random_state")
                 if red == "cdf":
                     n_ = smp[0][2][0] if smp else None
-                    okv = okc and v == ("bin", "/", ("call", G("numpy.sum"), (CMP("<=", smp[0], val),), ()), n_)
+                    hit = CMP("<=", smp[0], val) if smp else None
+                    sizes = [("call", G("len"), (smp[0],), ()), ("attr", smp[0], "size"), ("sub", ("attr", smp[0], "shape"), ("const", 0))] if smp else []
+                    forms = [("bin", "/", ("call", G("numpy.sum"), (hit,), ()), sz) for sz in sizes] + [("call", G("numpy.mean"), (hit,), ()), ("call", G("numpy.average"), (hit,), ())]
+                    okv = okc and v in forms
+                    if okc and v == ("bin", "/", ("call", G("numpy.sum"), (hit,), ()), n_):
+                        rep.fail("C16.mc", f"{q}:fraction-of-the-sample", fn.where(st),
+                                 "the number of sample values <= x_i is divided by the REQUESTED sample size: conditional_sample returns fewer values when its iterations run out "
+                                 "(MaxIterationWarning), so the estimate tops out below 1 - conditional_cdf([100.], 1, [[0.012]]) = 0.91696 with all 91696 returned values <= 100, "
+                                 "while conditional_icdf (np.quantile of the same sample) is unaffected; divide by len(sample)")
+                        okv = True      # the wiring itself (which sample, which point, which index) is decided below as before
                 else:
                     okv = okc and v == ("call", G("numpy.quantile"), (smp[0], val), ())
                 from .buffers import float_buffer
@@ -642,7 +714,19 @@ def montecarlo(prog, rep):
                           f"the estimates are stored into {show(base)[:60]}, which takes the dtype of the argument: for integer-valued {first} every probability / quantile is truncated to an integer")
                 why = (f"point i must be estimated from conditional_sample(n, dim, given_i, random_state=random_state) of the SAME i and stored at index i "
                        f"({'fraction of the sample <= x_i' if red == 'cdf' else 'np.quantile(sample, p_i)'}); found [{show(idx)[:30]}] = {show(v)[:160]}")
-        rep.check(ok, "C16.mc", f"{q}:per-point", fn.where(), f"{'(sample <= x_i).sum()/n' if red == 'cdf' else 'quantile(sample, p_i)'} with sample conditioned on given_i, stored at i", why)
+        rep.check(ok, "C16.mc", f"{q}:per-point", fn.where(), f"{'(sample <= x_i).sum()/len(sample)' if red == 'cdf' else 'quantile(sample, p_i)'} with sample conditioned on given_i, stored at i", why)
+        # no sample, no estimate: what is stored when the sampler gives up must not look like a result
+        fab = []
+        for st in cfg.all_stmts():
+            if isinstance(st, ast.Assign) and isinstance(st.targets[0], ast.Subscript) and ("handler", G(f"{JM}.CouldNotSampleError")) in path_conditions(prog, fn, b).of(st):
+                v = b.term(st.value, st)
+                nan = v in (G("numpy.nan"), G("numpy.NaN"), G("math.nan"), ("call", G("float"), (("const", "nan"),), ()))
+                if not nan:
+                    fab.append((st, v))
+        rep.check(not fab, "C16.mc", f"{q}:no-sample", fn.where(fab[0][0]) if fab else fn.where(), "a point that could not be sampled is reported as nan (or the error is raised)",
+                  f"when conditional_sample raises CouldNotSampleError the result is set to {show(fab[0][1]) if fab else ''}: a fabricated {'probability' if red == 'cdf' else 'quantile'} "
+                  "(Windmeier model, dataset C, given Hs = 11.529 m: median Tz = 0.0 s where the exact median is 13.0 s; a 50-year IFORM contour of a TransformedModel gets "
+                  "vertices with Tz = 0) - store nan or let the error through")
     # exact hierarchical conditional cdf / icdf
     dists, cond = ("attr", SELF, "distributions"), ("attr", SELF, "conditional_on")
     for name, meth in (("conditional_cdf", "cdf"), ("conditional_icdf", "icdf")):
